@@ -4,7 +4,7 @@
    left the queue before the call; the error is logged), RetryHead the alternative design "put the packet back at the
    head of the queue and try again with the next pacing interval".  Statements only; proofs in
    Proofs/PacerFailProofs.v. *)
-From IV Require Import Base.Word Model.PacerQueue Model.PacerFail Proofs.PacerProofs Proofs.PacerFailProofs.
+From IV Require Import Base.Word Model.PacerQueue Model.PacerFail Model.PacerDebit Proofs.PacerProofs Proofs.PacerFailProofs Proofs.PacerDebitProofs.
 
 (* ---------------- leaky bucket ---------------- *)
 
@@ -157,3 +157,61 @@ Example C17d_pacing_without_errors_nonvacuous :
   Forall gop_ok [GWrite ea; GRecv; GTick (12000 * NS) [true]; GTick (24000 * NS) []].
 Proof. repeat constructor. Qed.
 Print Assumptions C17d_pacing_without_errors_nonvacuous.
+
+(* ---------------- what the token bucket is debited per packet (Model/PacerDebit.v) ----------------
+   The bits handed downstream are 8 * (marshalled header size + payload length): ps_bits counts exactly these, whatever
+   is debited.  The debit is a function of the packet; the code debits real_bits = 8 * (hlen + plen). *)
+
+(* with the code's debit the LTS is the first-round LTS, so every C17_/C17b_ theorem about pst speaks about real bits *)
+Theorem C17d_debit_real_size_is_the_code : forall s ops, drun real_bits s ops = prun s ops.
+Proof. exact drun_real. Qed.
+Print Assumptions C17d_debit_real_size_is_the_code.
+
+(* REAL bits released never exceed the burst plus what the configured rates earn over the elapsed time - for every
+   debit that covers the real marshalled size of every packet, in every interleaving, with rate changes *)
+Theorem C17d_envelope_real_bits_for_covering_debit : forall cost, (forall p, 8 * plen p <= cost p) ->
+  forall rate burst t0 ops, 0 <= rate -> 0 <= burst -> rates_ok ops ->
+  ps_bits (drun cost (pinit rate burst t0) ops) * NS <= burst * NS + dearned_total cost (pinit rate burst t0) ops.
+Proof. exact debit_envelope. Qed.
+Print Assumptions C17d_envelope_real_bits_for_covering_debit.
+
+Theorem C17d_envelope_real_bits : forall rate burst t0 ops, 0 <= rate -> 0 <= burst -> rates_ok ops ->
+  ps_bits (drun real_bits (pinit rate burst t0) ops) * NS <= burst * NS + dearned_total real_bits (pinit rate burst t0) ops.
+Proof. exact real_debit_envelope. Qed.
+Print Assumptions C17d_envelope_real_bits.
+
+(* order and exactly-once do not depend on the debit *)
+Theorem C17d_fifo_for_any_debit : forall cost rate burst t0 ops,
+  let s := drun cost (pinit rate burst t0) ops in
+  ps_delivered s ++ ps_local s ++ ps_chan s = ps_accepted s.
+Proof. exact drun_fifo. Qed.
+Print Assumptions C17d_fifo_for_any_debit.
+
+(* a debit of 8 * (12 + payload length) - "an RTP header is 12 bytes" - breaks the envelope: ten packets with a
+   272-byte header (15 CSRCs, 200-byte extension block) and no payload against a 12000-bit bucket, one tick at elapsed
+   time 0: 21760 real bits leave, nothing was earned *)
+Theorem C17d_fixed_header_debit_envelope_refuted :
+  let s := drun fixed_header_bits (pinit 1000000 12000 0) hops in
+  ps_delivered s = map hp (zrange 0 10) /\ ps_bits s = 21760 /\
+  dearned_total fixed_header_bits (pinit 1000000 12000 0) hops = 0 /\
+  ps_bits s * NS > 12000 * NS + dearned_total fixed_header_bits (pinit 1000000 12000 0) hops.
+Proof. exact fixed_header_debit_breaks_envelope. Qed.
+Print Assumptions C17d_fixed_header_debit_envelope_refuted.
+
+Theorem C17d_real_debit_same_history_within_burst :
+  let s := drun real_bits (pinit 1000000 12000 0) hops in
+  ps_delivered s = map hp (zrange 0 5) /\ ps_bits s = 10880 /\ length (ps_local s) = 5%nat.
+Proof. exact real_debit_same_history. Qed.
+Print Assumptions C17d_real_debit_same_history_within_burst.
+
+(* ... and is indistinguishable from the code while every queued packet has the plain 12-byte header - the header shape
+   of every packet the envelope scenario sent before this round *)
+Theorem C17d_fixed_header_debit_agrees_on_plain_headers : forall fuel now q b del bits,
+  Forall (fun p => Z.abs (p_hlen p) = 12) q ->
+  drelease fixed_header_bits fuel now q b del bits = drelease real_bits fuel now q b del bits.
+Proof. exact fixed_agrees_plain_headers. Qed.
+Print Assumptions C17d_fixed_header_debit_agrees_on_plain_headers.
+
+Example C17d_plain_headers_nonvacuous : Forall (fun p => Z.abs (p_hlen p) = 12) [mkP 0 1 12 2 700; mkP 0 3 12 4 0].
+Proof. repeat constructor. Qed.
+Print Assumptions C17d_plain_headers_nonvacuous.
